@@ -42,6 +42,24 @@ def shape_arg(a, conv=lambda e: e, present="list"):
         v = [[conv(e) for e in row] for row in a["x"]]
     if present == "ndarray":
         return np.array(v)
+    if present == "object":
+        return np.array(v, dtype=object)
+    if present == "zerod" and a["k"] == "s":
+        return np.array(conv(a["x"]))          # a 0-d array holding one id
+    if present == "view":
+        # a strided / offset view into a larger array (every second element of a padded copy)
+        base = np.array(v)
+        if base.ndim == 1 and base.size:
+            big = np.empty(2 * base.size + 1, dtype=base.dtype)
+            big[:] = base[0]
+            big[1::2] = base
+            return big[1::2]
+        if base.ndim == 2 and base.size:
+            big = np.empty((base.shape[0] + 2, base.shape[1] + 1), dtype=base.dtype)
+            big[:] = base[0, 0]
+            big[1:-1, 1:] = base
+            return big[1:-1, 1:]
+        return base
     if present == "fortran":
         # same logical array, column-major memory layout (as produced by .T, asfortranarray, order="F" reshapes)
         return np.asfortranarray(np.array(v))
